@@ -103,8 +103,8 @@ type c07Case struct {
 	Pred *c07B `json:"pred,omitempty"`
 }
 
-// Step letters of a call sequence. Every sequence ends with exactly one 'z' (Close); nothing is
-// called on a transaction after Close.
+// Step letters of a call sequence. Every sequence ends with 'z' (Close); nothing but a further Close
+// ('zz', feature-interaction population) is called on a transaction after Close.
 const c07Steps = "" +
 	"c ProcessConnection; u ProcessURI; n SetServerName; r AddRequestHeader*; a Add{Get,Post,Path}RequestArgument*; " +
 	"1 ProcessRequestHeaders; w WriteRequestBody (chunked); W ReadRequestBodyFrom; 2 ProcessRequestBody; " +
@@ -166,6 +166,10 @@ type c07X struct {
 	// keepCache (replay of a history: witness only) leaves the predecessor's pattern-cache entries in place.
 	keepCache bool
 	wallByOp  map[string]time.Duration
+	// obs (feature-interaction population) is called on every transaction just before its first Close, under
+	// the same guard as the accessor step: it reads MatchedRules / IsInterrupted for the coverage bookkeeping.
+	obs    func(tx types.Transaction)
+	panics int // panics reported so far
 }
 
 func c07NewX(w *fw.W) *c07X {
@@ -255,6 +259,7 @@ func (x *c07X) guarded(op string, c *c07Case, f func()) *fw.PanicInfo {
 
 func (x *c07X) reportPanic(prefix, op string, c *c07Case, pi *fw.PanicInfo) {
 	class := prefix + c07Class(pi)
+	x.panics++
 	x.w.Count("panics", 1)
 	x.w.Count("panics_by_signature/"+class, 1)
 	x.w.Violation(class, "recover:"+op, c, "the call returns normally (value or error)", map[string]any{"panic": pi.Value, "call": op, "frame": pi.Frame}, pi.Stack)
@@ -436,8 +441,27 @@ func (x *c07X) RunTx(waf coraza.WAF, c *c07Case) bool {
 	interrupted := false
 	matched := 0
 	ok := true
-	for i := 0; i < len(c.Seq) && ok && !closed; i++ {
+	observe := func() {
+		if x.obs == nil || !ok {
+			return
+		}
+		if pi := x.guarded("accessors", c, func() { x.obs(tx) }); pi != nil {
+			x.reportPanic("", "accessors", c, pi)
+			x.tainted = true
+			ok = false
+		}
+	}
+	for i := 0; i < len(c.Seq) && ok; i++ {
 		step := c.Seq[i]
+		if closed && step != 'z' {
+			break // nothing but Close is called on a closed transaction
+		}
+		if step == 'z' && !closed {
+			observe()
+			if !ok {
+				break
+			}
+		}
 		var name string
 		var f func()
 		switch step {
@@ -575,6 +599,7 @@ func (x *c07X) RunTx(waf coraza.WAF, c *c07Case) bool {
 	if !closed {
 		// the sequence did not finish (panic) or had no 'z': release the transaction; a panic here
 		// after an earlier one is a consequence and is not reported again.
+		observe()
 		pi := x.guarded("Close", c, func() { tx.Close() })
 		if pi != nil && ok {
 			x.reportPanic("", "Close", c, pi)
